@@ -565,3 +565,51 @@ Proof.
            Ht Hi Hds Hcs E1 E2 G1 G2).
 Qed.
 Print Assumptions C02_on_grid_simulated_value_is_the_solved_entry.
+
+(* ---- END TO END: every row of simulate is optimal for THE SPECIFICATION's solution ----------------------------------------- *)
+From LCM Require Import Proofs.C01_SolveSpec Proofs.C02_SimulateSpec.
+(* The all-rows theorem speaks about the arrays the code computed; composed with C01_lcm_solve_is_the_specifications_solve      *)
+(* (those arrays ARE the specification's solve_spec) and with the fact that the specification reads its next value function only  *)
+(* on the grid: for every period and agent, the recorded value is the specification's value_at of the agent's state WITH THE       *)
+(* SPECIFICATION's table of the next period as next value function, and the recorded choice is admissible and attains it.          *)
+(* (Models without filter-restricted variables; hypotheses: those of the two theorems.)                                            *)
+Theorem C02_every_simulated_row_is_optimal_for_the_specifications_solution :
+  forall (m : model) (p : params) (dch cch : list (string * grid)),
+  let n := Lang.n_periods m in let dst := dstates (states m) in let cst := cstates (states m) in
+  Permutation (dch ++ cch) (choices m) -> NoDup (map fst (choices m)) -> NoDup (map fst (states m)) -> grids_valid (states m) ->
+  NoDup (map fst (dst ++ dch ++ cst ++ cch)) -> (1 <= n)%nat ->
+  (forall t, (S t < n)%nat -> forall ds dc cs cc,
+     in_bounds (sizes dst) ds -> in_bounds (sizes dch) dc -> in_bounds (sizes cst) cs -> in_bounds (sizes cch) cc ->
+     evaluates_at m p (fun _ => 0%Q) (spec_env t dst dch cst cch ds dc cs cc)) ->
+  (forall t, S t = n -> forall ds dc cs cc,
+     in_bounds (sizes dst) ds -> in_bounds (sizes dch) dc -> in_bounds (sizes cst) cs -> in_bounds (sizes cch) cc ->
+     exists u, eval_fun (depth m) m p (spec_env t dst dch cst cch ds dc cs cc) "utility" = Some u) ->
+  (forall t idx, (t < n)%nat -> in_bounds (state_shape m) idx ->
+     exists q, get VUndef (nth t (solve_spec m p) (scalar VUndef)) idx = VFin q) ->
+  forall (nag : nat) (trans : S_states -> list (list nat * list nat) -> nat -> list key -> S_states)
+         (initial : S_states) (seed : nat) (prng : nat -> key) (n_stoch : nat),
+  let st := states_at m p n dch cch nag trans initial seed prng n_stoch in
+  (forall t, (t < n)%nat ->
+     length (fst (st t)) = length dst /\ length (snd (st t)) = length cst /\
+     Forall (fun c : list Q => length c = nag) (fst (st t) ++ snd (st t)) /\ (fst (st t) ++ snd (st t))%list <> []) ->
+  (forall t i dc cc, (S t < n)%nat -> (i < nag)%nat -> in_bounds (sizes dch) dc -> in_bounds (sizes cch) cc ->
+     evaluates_at m p (fun _ => 0%Q) (agent_env t dst dch cst cch (fst (st t)) (snd (st t)) i dc cc)) ->
+  (forall t i dc cc, S t = n -> (i < nag)%nat -> in_bounds (sizes dch) dc -> in_bounds (sizes cch) cc ->
+     exists u, eval_fun (depth m) m p (agent_env t dst dch cst cch (fst (st t)) (snd (st t)) i dc cc) "utility" = Some u) ->
+  forall t i, (t < n)%nat -> (i < nag)%nat ->
+  let V := C02_SimulateAll.row_value m p n dch cch nag trans initial seed prng n_stoch t i in
+  let ch := row_choice m p n dch cch nag trans initial seed prng n_stoch t i in
+  let cD := fst (st t) in let cC := snd (st t) in
+  let vspec := fun idx => get VUndef (nth (S t) (solve_spec m p) (scalar VUndef)) idx in
+  let last := (t =? n - 1)%nat in
+  veq V (value_at m p t last vspec (agent_state dst cst cD cC i)) /\
+  (V <> VNegInf ->
+   in_bounds (sizes dch) (fst ch) /\ in_bounds (sizes cch) (snd ch) /\
+   feasible m p (agent_env t dst dch cst cch cD cC i (fst ch) (snd ch)) = true /\
+   veq (objective m p last vspec (agent_env t dst dch cst cch cD cC i (fst ch) (snd ch))) V).
+Proof.
+  intros m p dch cch n dst cst H1 H2 H3 H4 H5 H6 H7 H8 H9 nag trans initial seed prng n_stoch st F1 F2 F3 t i Ht Hi.
+  exact (every_simulated_row_is_optimal_for_the_specifications_solution m p dch cch H1 H2 H3 H4 H5 H6 H7 H8 H9
+           nag trans initial seed prng n_stoch F1 F2 F3 t i Ht Hi).
+Qed.
+Print Assumptions C02_every_simulated_row_is_optimal_for_the_specifications_solution.
